@@ -534,3 +534,17 @@ func init() {
 		},
 	})
 }
+
+func init() {
+	register(&Property{
+		ID:    "C38",
+		Units: []string{"fasthttp.(*PipelineClient).DoTimeout", "fasthttp.(*PipelineClient).DoDeadline", "fasthttp.(*PipelineClient).Do", "fasthttp.(*pipelineConnClient).DoDeadline", "fasthttp.(*pipelineConnClient).Do", "fasthttp.(*pipelineConnClient).worker", "fasthttp.(*pipelineConnClient).writer", "fasthttp.(*pipelineConnClient).reader", "fasthttp.(*pipelineConnClient).pipelineWorker", "fasthttp.(*pipelineConnClient).acquirePipelineWork"},
+		Runs: []Run{
+			{Pkg: "fasthttp", Func: "vhC38Deadlines", Quick: map[string]int{"calls": 3}, Thorough: map[string]int{"calls": 4}, NoNative: true},
+		},
+		Assume: []string{
+			"the real PipelineClient (worker / writer / reader goroutines, work queues, timers) on the engine's cooperative scheduler with a *virtual* clock, against a reactive in-memory server that answers, stalls (reads, never answers), answers 150 ms late, or closes its first connection after one request; `calls` concurrent calls, DoTimeout(100 ms) or Do without a deadline, MaxPendingRequests ∈ {1,2}, MaxConns 1",
+			"'returns by its deadline' is decided on the virtual clock (elapsed ≤ timeout + 5 ms): what is excluded is the real scheduler's slack and wall-clock behaviour, which is what the property's 'plus scheduling slack' concedes anyway; interleavings are those of blocking operations (cooperative scheduler), choices only, not re-run natively; several connections (MaxConns > 1) and TLS are outside",
+		},
+	})
+}
